@@ -16,8 +16,11 @@ Inductive star (c : cfg) (C : list instr) : vm -> vm -> Prop :=
 | star_refl σ : star c C σ σ
 | star_step σ1 σ2 σ3 : step c C σ1 = Ok σ2 -> star c C σ2 σ3 -> star c C σ1 σ3.
 
-(* expressions covered: every constructor except calls (ECall: macro and function calls);
-   comparisons are well formed (at least one operator, as the parser guarantees) *)
+Fixpoint nodup_keys (l : list name) : bool :=
+  match l with [] => true | x :: r => negb (existsb (Z.eqb x) r) && nodup_keys r end.
+
+(* expressions covered: every constructor; comparisons are well formed (at least one operator) and a
+   call does not repeat a keyword (as the parser guarantees) *)
 Fixpoint l2_expr (e : expr) {struct e} : bool :=
   match e with
   | EConst _ | EVar _ => true
@@ -27,13 +30,14 @@ Fixpoint l2_expr (e : expr) {struct e} : bool :=
   | ECmp a rest => l2_expr a && negb (match rest with [] => true | _ => false end) && forallb (fun p => l2_expr (snd p)) rest
   | EIf c t f => l2_expr c && l2_expr t && match f with Some f => l2_expr f | None => true end
   | EFilter _ a args | ETest _ a args _ => l2_expr a && forallb l2_expr args
-  | ECall _ _ _ => false
+  | ECall _ args kwargs =>
+      forallb l2_expr args && forallb (fun p => l2_expr (snd p)) kwargs && nodup_keys (map fst kwargs)
   end.
 
 (* statements covered: raw text, emit, if / elif / else, set, set-block (with filter), with,
    filter block, autoescape, for loops (any target, filter, else, loop variable, recursive flag),
-   break and continue ([inl]: inside a loop of the fragment, where loop controls are allowed);
-   not covered: macro, call block *)
+   break and continue ([inl]: inside a loop of the fragment, where loop controls are allowed),
+   macro declarations and call blocks (no loop control reaches out of a macro body) *)
 Fixpoint l2_stmt (inl : bool) (t : stmt) {struct t} : bool :=
   match t with
   | SRaw _ => true
@@ -51,7 +55,8 @@ Fixpoint l2_stmt (inl : bool) (t : stmt) {struct t} : bool :=
       && forallb (l2_stmt true) body
       && match els with Some b => forallb (l2_stmt inl) b | None => true end
   | SBreak | SContinue => inl
-  | SMacro _ _ _ _ | SCallBlock _ _ _ => false
+  | SMacro _ _ defaults body => forallb (fun p => l2_expr (snd p)) defaults && forallb (l2_stmt false) body
+  | SCallBlock _ args body => forallb l2_expr args && forallb (l2_stmt false) body
   end.
 
 (* the machine after a loop control has undone the scopes [p] (innermost first) and jumped to [pc] *)
@@ -100,7 +105,49 @@ Definition overflow (C : list instr) (σ : vm) : Prop :=
   nth_error C (v_pc σ) = Some (IBinOp OAdd) /\
   exists k r, v_stk σ = VInt 1 :: VInt k :: r /\ (i128_max <= k)%Z.
 
-(* [post] or that overflow *)
-Definition postO (C : list instr) (sg : signal) (lc : option lctx) (endpc : nat) (stk : list value) (s' : st) (esc : bool)
-    (escs : list bool) (caps : list (list (list Z))) (its : list (list value)) (calls : list callframe) (σ' : vm) : Prop :=
-  post sg lc endpc stk s' esc escs caps its calls σ' \/ overflow C σ'.
+(* zero or more VM steps, or steps up to such an overflow (after which nothing is claimed) *)
+Inductive starO (c : cfg) (C : list instr) : vm -> vm -> Prop :=
+| starO_refl σ : starO c C σ σ
+| starO_step σ1 σ2 σ3 : step c C σ1 = Ok σ2 -> starO c C σ2 σ3 -> starO c C σ1 σ3
+| starO_ovf σ σ' : overflow C σ -> starO c C σ σ'.
+
+(* ---- what the proof knows of the values in a reachable state ---- *)
+
+(* the code of a macro body at offset [off]: compile_macro_expression between the Jump and the Enclose's *)
+Definition mcode (mc : macro) (off : nat) : list instr :=
+  let cp := params_code (m_defaults mc) (rev (m_params mc)) off in
+  cp ++ compile_stmts (m_body mc) (off + length cp) None ++ [IReturn].
+
+(* every BuildMacro of the program points at the code of the macro it builds (true of compile_template) *)
+Definition wf_code (C : list instr) : Prop :=
+  forall pc mc off fl, nth_error C pc = Some (IBuildMacro mc off fl) -> code_at C off (mcode mc off).
+
+(* a macro value of a reachable state: its syntax is in the fragment and the program builds it somewhere *)
+Definition mok (C : list instr) (mc : macro) : Prop :=
+  forallb (fun p => l2_expr (snd p)) (m_defaults mc) = true /\ forallb (l2_stmt false) (m_body mc) = true /\
+  exists pc off fl, nth_error C pc = Some (IBuildMacro mc off fl).
+
+(* values: macros are [mok]; the only function value is `range` (so no value looks like the VM's
+   representation of keyword arguments) *)
+Fixpoint vok (C : list instr) (v : value) : Prop :=
+  match v with
+  | VList l => (fix all (l : list value) : Prop := match l with [] => True | x :: r => vok C x /\ all r end) l
+  | VMacro mc _ => mok C mc
+  | VFunc g => g = N_range
+  | _ => True
+  end.
+
+Definition kvok (C : list instr) (kv : list (name * value)) : Prop := Forall (fun p => vok C (snd p)) kv.
+
+(* states: every local of every scope and every closure entry is [vok]; configurations: the context *)
+Definition Inv (C : list instr) (s : st) : Prop :=
+  Forall (fun f => kvok C (f_locals f)) (s_env s) /\ Forall (kvok C) (s_clos s).
+Definition cfg_ok (C : list instr) (c : cfg) : Prop := kvok C (c_root c).
+
+(* plain data (what a render context holds): no macros, functions or loop objects *)
+Fixpoint data_value (v : value) : bool :=
+  match v with
+  | VList l => forallb data_value l
+  | VMacro _ _ | VFunc _ | VLoop _ _ => false
+  | _ => true
+  end.
